@@ -49,7 +49,8 @@ def specs(draw, max_entities=3, allow_comp_pk=True, allow_inheritance=False, rel
             # a self-referencing required parent can never be created: keep self o2m optional
             rel['b_req'] = False if a == b else draw(st.booleans())
             if rel['b_req']:
-                rel['cascade'] = draw(st.sampled_from([None, None, True]))
+                # cascade_delete=False with a Required reverse is legal: deleting the owner of a non-empty set is refused
+                rel['cascade'] = draw(st.sampled_from([None, None, True, False]))
             else:
                 rel['cascade'] = draw(st.sampled_from([None, None, True, False]))
         elif kind == 'o2o':
